@@ -98,6 +98,9 @@ def run_property(pid, tier='quick', repo='/repo', configs=None, emit=True, targe
     wall = time.time() - t0
     if emit:
         os.makedirs(os.path.join(EVID, 'violations'), exist_ok=True)
+        import glob
+        for old in glob.glob(os.path.join(EVID, 'violations', pid + '-*.json')):
+            os.remove(old)
         lines = []
         for o, k in known_hits:
             lines.append('KNOWN-FINDING: property=%s %s [%s at %s]' % (pid, k['what_fails'], o['id'], o['where']))
